@@ -455,7 +455,7 @@ Definition csi_final (t : term) (p : pst) (is_start : bool) (ch : Z) : outcome :
   else if ch =? 88 then cmd_ech t p                                               (* X *)
   else if ch =? 64 then                                                           (* @ *)
     match ns with
-    | n :: _ => ok (iter_tot n caret_ins t) d
+    | n :: _ => ok (iter_tot (Z.min n (Z.max 0 (lw t - cx t))) caret_ins t) d      (* after the C03 fix: clamped to the right edge *)
     | [] => err (caret_ins t) d
     end
   else if ch =? 77 then                                                           (* M *)
@@ -478,7 +478,10 @@ Definition csi_final (t : term) (p : pst) (is_start : bool) (ch : Z) : outcome :
   else if ch =? 76 then                                                           (* L *)
     match ns with
     | [] => lift (insert_terminal_line t (cy t)) d
-    | [n] => lift (iter_res n (fun x => insert_terminal_line x (cy x)) t) d
+    | [n] => lift (iter_res (Z.min n (match mtb t with
+                                      | Some _ => Z.max (zlen (lines t)) (cy t + 1) + th t + 1
+                                      | None => Z.max 0 (first t + th t - cy t) end))
+                            (fun x => insert_terminal_line x (cy x)) t) d      (* after the C03 fix: clamped *)
     | _ => err t d
     end
   else if ch =? 74 then                                                           (* J *)
